@@ -169,8 +169,14 @@ class ExcelCompiler:
                     if isinstance(cell, _CycleCell):
                         # ranges (array formulas) are not cycle cells
                         cell.start_calcs()
-                    return eval_ctx(
-                        cell.formula, cse_array_address=cse_array_address)
+                    try:
+                        return eval_ctx(
+                            cell.formula, cse_array_address=cse_array_address)
+                    except Exception:
+                        if isinstance(cell, _CycleCell):
+                            # a failed calculation is not in progress anymore
+                            cell.wip = False
+                        raise
 
             else:
                 def _eval(cell, cse_array_address=None):
